@@ -276,6 +276,9 @@ fn generate(seed: u64, case: u64, o: &Opts) -> Scenario {
                     Decision::StallAt(Phase::AfterHeaders, 200),
                     Decision::StallAt(Phase::InBody, 200),
                     Decision::StallAt(Phase::BeforeTrailers, 200),
+                    // answered normally, then the established connection is closed / reset
+                    Decision::AckThenDrop { reset: false },
+                    Decision::AckThenDrop { reset: true },
                 ]
             } else {
                 &[
@@ -297,6 +300,8 @@ fn generate(seed: u64, case: u64, o: &Opts) -> Scenario {
                     Decision::AckThenClose { chunked: true, in_body: true },
                     Decision::AckThenClose { chunked: true, in_body: false },
                     Decision::AckThenClose { chunked: false, in_body: true },
+                    Decision::AckThenDrop { reset: false },
+                    Decision::AckThenDrop { reset: true },
                 ]
             };
             let forced = menu[(case / 3) as usize % menu.len()];
@@ -736,6 +741,12 @@ fn run(r: &mut Report, sc: &Scenario) {
             r.observe("distinct-requests-in-split-batches", sets.len() as u64);
         }
     }
+    for rec in records.iter().filter(|r| r.decision.is_ack_then_drop()) {
+        r.observe(&format!("acknowledged-then-connection-dropped:{}:{}", tname, rec.decision.name()), 1);
+        if records.iter().any(|n| n.endpoint == rec.endpoint && n.seq > rec.seq && n.conn != rec.conn) {
+            r.observe("requests-on-a-fresh-connection-after-the-collector-dropped-the-old-one", 1);
+        }
+    }
     for rec in records.iter().filter(|r| r.decision.is_ack_then_close()) {
         r.observe(&format!("acknowledged-then-closed:{}", rec.decision.name()), 1);
     }
@@ -1068,6 +1079,8 @@ fn run(r: &mut Report, sc: &Scenario) {
                 "acknowledged-only-after-flush-returned".to_string()
             } else if let Some(c) = last_carrier {
                 format!("only-in-unacknowledged-requests:after={}", c.decision.class())
+            } else if records.iter().any(|rec| rec.endpoint == sig && rec.decision.is_ack_then_drop()) {
+                "in-no-request:after=idle-connection-closed".to_string()
             } else {
                 format!("in-no-request:{}", if multi { "split-batch" } else if fault_classes(&records, sig) == "none" { "no-fault" } else { "after-faults" })
             };
